@@ -230,6 +230,12 @@ def split_first_chunk (n : Int) (b : List Nat) : Option (List Nat × List Nat) :
 /-- `Option::unwrap` made total (that it cannot fail at its sites is a C07 obligation) -/
 def unwrap {α : Type} [Inhabited α] (o : Option α) : α := o.getD default
 
+/-- `Iterator::flatten` over a slice of options: the present elements, in order -/
+def flatten {α : Type} : List (Option α) → List α
+  | [] => []
+  | none :: rest => flatten rest
+  | some a :: rest => a :: flatten rest
+
 /-- `iter::repeat(x)` -/
 structure Repeat where
   x : Nat
